@@ -623,6 +623,27 @@ def run(*, tier, seed, jobs, progress, opts):
             cov['plans'].append(c)
             cov['states'] += c['states']
             cov['transitions'] += c['transitions']
+    # E7: two sessions, one namespace command each, on one maildir; every
+    # schedule of their filesystem calls; serial-order oracle
+    if 'depth' not in opts:
+        from . import c11mt
+        mtc = {'pairs': 0, 'executions': 0, 'distinct_outcomes': 0,
+               'by_preemptions': {}}
+        with scratch_parent(), \
+                mp.get_context('fork').Pool(jobs or 16) as pool:
+            for st in pool.imap_unordered(c11mt.task, c11mt.tasks(tier),
+                                          chunksize=1):
+                if 'error' in st:
+                    raise RuntimeError(f'E7 harness error: {st}')
+                mtc['pairs'] += 1
+                mtc['executions'] += st['executions']
+                mtc['distinct_outcomes'] += st['outcomes']
+                for k_, n in st['by_preemptions'].items():
+                    mtc['by_preemptions'][str(k_)] = \
+                        mtc['by_preemptions'].get(str(k_), 0) + n
+                violations += st['violations']
+        cov['maildir_threads'] = mtc
+        cov['transitions'] += mtc['executions']
     cov['traces_validated_against_impl'] = cov['transitions']
     cov['driver_alphabet'] = [e['name'] for e in m.alphabet()]
     cov['probe_reads'] = len(_R)
@@ -653,6 +674,19 @@ def replay(rec):
 
 def _replay(rec):
     r = rec['replay']
+    if r.get('mt11'):
+        from . import c11mt
+        names = tuple(r['names'])
+        ser = [c11mt.execute(r['layout'], names, serial=o)[1][:2]
+               for o in ((0, 1), (1, 0))]
+        ex, (conds, obs, stuck) = c11mt.execute(r['layout'], names,
+                                                prefix=r['prefix'])
+        bad = bool(stuck) or (conds, obs) not in ser
+        print('answers', conds, 'namespace', obs, 'stuck', stuck)
+        print('serial orders', ser)
+        if bad:
+            print('VIOLATION-REPLAYED', rec.get('rule'), rec.get('site'))
+        return 1 if bad else 0
     m = Model(**(r.get('params') or {}))
     if 'probe' in r:
         ctx = replay_hist(m, r['history'])
